@@ -411,7 +411,9 @@ func VerifC20Step() {
 		a := &workflow.Action{Name: "ca", Descr: "d", Plugin: "p"}
 		bc := &workflow.Checks{Actions: []*workflow.Action{a}}
 		rc := &workflow.Checks{Actions: []*workflow.Action{a}}
-		bp.PreChecks, rp.PreChecks = bc, rc
+		// the group the cursor sits in is any of the five
+		ct := []ChecksType{PreChecks, ContChecks, PostChecks, BypassChecks, DeferredChecks}[api.Choose("attached_group", 5)]
+		*vhGroup(bp, ct), *vhGroup(rp, ct) = bc, rc
 		bchain, rchain = append(bchain, bc), append(rchain, rc)
 	case 2: // Plan, Block
 		addBlock()
@@ -420,7 +422,8 @@ func VerifC20Step() {
 		a := &workflow.Action{Name: "ca", Descr: "d", Plugin: "p"}
 		bc := &workflow.Checks{Actions: []*workflow.Action{a}}
 		rc := &workflow.Checks{Actions: []*workflow.Action{a}}
-		bp.Blocks[0].PostChecks, rp.Blocks[0].PostChecks = bc, rc
+		ct := []ChecksType{PreChecks, ContChecks, PostChecks, BypassChecks, DeferredChecks}[api.Choose("attached_group", 5)]
+		*vhGroup(bp.Blocks[0], ct), *vhGroup(rp.Blocks[0], ct) = bc, rc
 		bchain, rchain = append(bchain, bc), append(rchain, rc)
 	case 4: // Plan, Block, Sequence
 		addBlock()
